@@ -27,4 +27,22 @@ a, b = "<!-- SEEDED-TABLE-BEGIN -->", "<!-- SEEDED-TABLE-END -->"
 if a in s:
     s = s[:s.index(a) + len(a)] + "\n" + text + s[s.index(b):]
     open(p, "w").write(s)
-print(summary)
+# ---- fix list
+import subprocess
+kf = json.load(open(os.path.join(ROOT, "known_findings.json")))
+byc = {e["commit"][:7]: e for e in kf["fixed"]}
+log = subprocess.run(["git", "-C", "/repo", "log", "--reverse", "--format=%h %s"], capture_output=True, text=True).stdout
+lines = []
+for l in log.split("\n"):
+    c, _, msg = l.partition(" ")
+    if not msg.startswith("fix:"):
+        continue
+    e = byc.get(c[:7])
+    lines.append("* `%s` %s - %s%s" % (c, e["property"] if e else "?", msg[5:], " (replay: `%s`)" % e["replay"] if e and e.get("replay") else ""))
+fx = "%d repairs:\n\n" % len(lines) + "\n".join(lines) + "\n"
+s = open(p).read()
+a, b = "<!-- FIXES-BEGIN -->", "<!-- FIXES-END -->"
+if a in s:
+    s = s[:s.index(a) + len(a)] + "\n" + fx + s[s.index(b):]
+    open(p, "w").write(s)
+print(summary, "|", len(lines), "fixes")
